@@ -237,7 +237,9 @@ theorem leavesL_sublist : ∀ ts : List PT, (PT.leavesL ts).Sublist (PT.allIdsL 
     exact List.Sublist.append (leaves_sublist t) (leavesL_sublist ts)
 end
 
-/-- **C17, end to end.**  Take any document whose page tree is well formed (C12: the forest `ks`
+/-- General form of the end-to-end statement for any bookmark state whose table represents a forest
+`ts` (used for plain `add_bookmark` sequences and for sequences followed by `adjust_zero_pages`).
+**C17, end to end.**  Take any document whose page tree is well formed (C12: the forest `ks`
 of distinct `Page`/`Pages` objects under the catalog's `Pages` node, nesting within the limit), whose
 catalog is stored directly, has no `Dests`/`Names`, and whose objects all have numbers ≤ `max_id`.
 Take ANY sequence of `add_bookmark(Bookmark::new(title, …, page), parent)` calls (children attached
@@ -245,8 +247,8 @@ in any order, possibly to missing parents) with at least one reachable bookmark,
 reachable bookmarks have pairwise distinct titles and target pages in the page tree.
 Then for all sufficient fuel `build_outline` succeeds and, after `catalog.set("Outlines", root)`,
 `get_toc` returns exactly the preorder of the bookmark forest: level, title, page number. -/
-theorem toc_readback_api (trailer : Dict) (os : Objects) (cat pid : ObjId) (catd : Dict) (ks : List PT)
-    (maxId : Nat) (ops : List (Bm × Option Nat))
+theorem toc_readback_rep (trailer : Dict) (os : Objects) (cat pid : ObjId) (catd : Dict) (ks : List PT)
+    (maxId : Nat) (s : BmState) (ts : List BT) (hrep : repL s.table s.roots ts = true)
     (hroot : (trailer.get ROOT).bind Obj.asRef = some cat)
     (hcatd : os.get cat = some (.dict catd))
     (hpages : (catd.get PAGES).bind Obj.asRef = some pid)
@@ -256,17 +258,16 @@ theorem toc_readback_api (trailer : Dict) (os : Objects) (cat pid : ObjId) (catd
     (hdepth : PT.heightL ks ≤ PAGE_TREE_DEPTH_LIMIT)
     (hold : ∀ q x, os.get q = some x → q.1 ≤ maxId)
     (hnd : catd.get RD_DESTS = none) (hnn : catd.get RD_NAMES = none)
-    (hc : ∀ op ∈ ops, op.1.children = [])
-    (hne : forestOfOps ops ≠ [])
-    (htarget : ∀ e ∈ BT.preL 1 (forestOfOps ops), e.2.2 ∈ PT.leavesL ks)
-    (hscalar : ∀ e ∈ BT.preL 1 (forestOfOps ops), ∀ c ∈ e.2.1, IsScalar c)
-    (hdistinct : ((BT.preL 1 (forestOfOps ops)).map (fun e => e.2.1)).Nodup)
-    (fuelB fuelR : Nat) (hfB : BT.sizeL (forestOfOps ops) ≤ fuelB) (hfR : BT.sizeL (forestOfOps ops) ≤ fuelR) :
-    ∃ b, buildOutline fuelB (addAll BmState.empty ops) maxId = some (some b) ∧
+    (hne : ts ≠ [])
+    (htarget : ∀ e ∈ BT.preL 1 (ts), e.2.2 ∈ PT.leavesL ks)
+    (hscalar : ∀ e ∈ BT.preL 1 (ts), ∀ c ∈ e.2.1, IsScalar c)
+    (hdistinct : ((BT.preL 1 (ts)).map (fun e => e.2.1)).Nodup)
+    (fuelB fuelR : Nat) (hfB : BT.sizeL (ts) ≤ fuelB) (hfR : BT.sizeL (ts) ≤ fuelR) :
+    ∃ b, buildOutline fuelB (s) maxId = some (some b) ∧
       getToc fuelR trailer (setOutlines (installObjs os b.objs) cat b.root) =
-        .ok ((BT.preL 1 (forestOfOps ops)).map
+        .ok ((BT.preL 1 (ts)).map
           (fun e => { level := e.1, title := e.2.1, page := pageIndex (PT.leavesL ks) e.2.2 + 1 })) 0 := by
-  obtain ⟨b, hb, hbroot, _, hbrootd, hbemb⟩ := outline_links_of_ops ops hc maxId fuelB hne hfB
+  obtain ⟨b, hb, hbroot, _, hbrootd, hbemb⟩ := outline_links s ts maxId fuelB hrep hne hfB
   refine ⟨b, hb, ?_⟩
   obtain ⟨_, _, hfresh⟩ := outline_ids_fresh _ _ _ _ hb
   have hnew_gt : ∀ q d, b.objs.get q = some d → maxId < q.1 := fun q d h =>
@@ -307,7 +308,7 @@ theorem toc_readback_api (trailer : Dict) (os : Objects) (cat pid : ObjId) (catd
     have hlt := hnew_gt q d hq
     have : ¬ cat = q := by intro e; subst e; omega
     simp [dictAt, Objects.get, this, installObjs_get, hq]
-  refine toc_readback trailer _ (catd.set CAT_OUTLINES (oref (maxId + 1, 0))) (forestOfOps ops) (maxId + 1)
+  refine toc_readback trailer _ (catd.set CAT_OUTLINES (oref (maxId + 1, 0))) (ts) (maxId + 1)
     (PT.leavesL ks) ?_ ?_ ?_ ?_ (hdict _ _ hbrootd) ?_ hne hpi
     (List.Nodup.sublist (leavesL_sublist ks) hnodup) htarget hscalar hdistinct fuelR hfR
   · simp [catalogOf, hroot, getDictionary, getObject, Objects.get, deref,
@@ -317,6 +318,37 @@ theorem toc_readback_api (trailer : Dict) (os : Objects) (cat pid : ObjId) (catd
   · rw [Dict.get_set_ne _ _ _ _ (by decide)]; exact hnd
   · rw [Dict.get_set_ne _ _ _ _ (by decide)]; exact hnn
   · exact EmbL_mono _ _ (Nat.le_refl _) _ _ _ _ _ hdict hbemb
+
+/-- **C17, end to end, for the public API.**  Any document with a well-formed page tree (C12), a
+directly stored catalog without `Dests`/`Names`, all object numbers ≤ `max_id`; ANY sequence of
+`add_bookmark(Bookmark::new(title, …, page), parent)` calls (children attached in any order, possibly
+to missing parents) with at least one reachable bookmark, reachable titles pairwise distinct, target
+pages in the page tree.  Then for all sufficient fuel `build_outline` succeeds and, after
+`catalog.set("Outlines", root)`, `get_toc` returns exactly the preorder of the bookmark forest:
+level, title, page number. -/
+theorem toc_readback_api (trailer : Dict) (os : Objects) (cat pid : ObjId) (catd : Dict) (ks : List PT)
+    (maxId : Nat) (ops : List (Bm × Option Nat))
+    (hroot : (trailer.get ROOT).bind Obj.asRef = some cat)
+    (hcatd : os.get cat = some (.dict catd))
+    (hpages : (catd.get PAGES).bind Obj.asRef = some pid)
+    (hkids : kidsOf os pid = some (PT.idsL ks))
+    (hemb : EmbedsL (classify os) ks)
+    (hnodup : (PT.allIdsL ks).Nodup)
+    (hdepth : PT.heightL ks ≤ PAGE_TREE_DEPTH_LIMIT)
+    (hold : ∀ q x, os.get q = some x → q.1 ≤ maxId)
+    (hnd : catd.get RD_DESTS = none) (hnn : catd.get RD_NAMES = none)
+    (hc : ∀ op ∈ ops, op.1.children = [])
+    (hne : forestOfOps ops ≠ [])
+    (htarget : ∀ e ∈ BT.preL 1 (forestOfOps ops), e.2.2 ∈ PT.leavesL ks)
+    (hscalar : ∀ e ∈ BT.preL 1 (forestOfOps ops), ∀ c ∈ e.2.1, IsScalar c)
+    (hdistinct : ((BT.preL 1 (forestOfOps ops)).map (fun e => e.2.1)).Nodup)
+    (fuelB fuelR : Nat) (hfB : BT.sizeL (forestOfOps ops) ≤ fuelB) (hfR : BT.sizeL (forestOfOps ops) ≤ fuelR) :
+    ∃ b, buildOutline fuelB (addAll BmState.empty ops) maxId = some (some b) ∧
+      getToc fuelR trailer (setOutlines (installObjs os b.objs) cat b.root) =
+        .ok ((BT.preL 1 (forestOfOps ops)).map
+          (fun e => { level := e.1, title := e.2.1, page := pageIndex (PT.leavesL ks) e.2.2 + 1 })) 0 :=
+  toc_readback_rep trailer os cat pid catd ks maxId _ _ (rep_of_ops ops hc) hroot hcatd hpages hkids hemb hnodup hdepth
+    hold hnd hnn hne htarget hscalar hdistinct fuelB fuelR hfB hfR
 
 /-! ## non-vacuity of `toc_readback_api` -/
 
